@@ -521,7 +521,8 @@ impl C13 {
                     }
                 }
             }
-            let nlines = b.iter().filter(|&&c| c == b'\n').count() + 1;
+            // the csv reader ends a record at LF, CR or CRLF: every one of them can start a new item
+            let nlines = b.iter().filter(|&&c| c == b'\n' || c == b'\r').count() + 1;
             let b2 = b.clone();
             let got: Result<Vec<Option<Vec<String>>>, String> = guard(move || {
                 if is_bed {
